@@ -36,7 +36,7 @@ func monC03(rep Rep, v *View) (deletes int) {
 			rep.Label("delete:scale-in")
 		case "replace":
 			rep.Label("delete:replace-failed")
-			if pa.A.Err == nil && v.Rec.Err == nil && !v.Rec.Crashed && v.Rec.Panic == nil {
+			if pa.A.Err == nil && !v.APIFailure() {
 				ok := false
 				for _, nx := range acts[i+1:] {
 					if nx.Create && nx.A.Name == pa.A.Name {
@@ -346,17 +346,9 @@ func monC14(rep Rep, v *View) (k, m int, bystander bool) {
 	if !v.Parallel || v.Deleting || v.Paused || !v.Rec.ListedPods {
 		return
 	}
-	if v.Rec.Crashed || v.Rec.Panic != nil {
-		return
-	}
 	// "absent API errors" is judged by the API calls (and injected cache-lookup failures), not by what the
 	// reconcile returns: a reconcile that gives up although every call succeeded is what the property forbids
-	for _, a := range v.Rec.Actions {
-		if a.Faulted || a.Err != nil {
-			return
-		}
-	}
-	if v.Rec.Err != nil && v.Rec.LookupFailed {
+	if v.APIFailure() {
 		return
 	}
 	if len(v.Odd) > 0 {
